@@ -495,9 +495,21 @@ theorem qnl_ok (v : List Int) (hv : ∀ x ∈ v, 0 ≤ x) (std : Int) (dne : Boo
         exact ⟨ha.2.1 x this, ha.2.2 x this⟩
   exact ⟨C06.sorted_out v std dne a out ho, fun x hx => (hcase x hx).1, fun x hx => (hcase x hx).2⟩
 
+/-- sorting (`normalise_absolute`) keeps a legal absolute view legal -/
+theorem okAbs_sortAbs {a : List Msg} (ha : OkAbs a) : OkAbs (sortAbs a) :=
+  ⟨sortAbs_timeSorted a, fun m hm => ha.2.1 m ((mem_sortAbs a m).1 hm), fun m hm => ha.2.2 m ((mem_sortAbs a m).1 hm)⟩
+
+/-- the repaired `quantise` (`quantiseS`: sort, then the walk) succeeds on every input as soon as the step list is non-empty -/
+theorem quantiseS_total_any {steps : List Int} (hne : steps ≠ []) (a : List Msg) :
+    ∃ out, quantiseS steps a = .ok out := quantise_total_any hne (sortAbs a)
+
+/-- `quantise_ok` for the repaired `quantise` -/
+theorem quantiseS_ok (st : List Int) (hs : C05.StepsOk st) (a : List Msg) (ha : OkAbs a) :
+    ∃ a', quantiseS st a = .ok a' ∧ OkAbs a' := quantise_ok st hs (sortAbs a) (okAbs_sortAbs ha)
+
 theorem quantiseSeq_inv (e : Env) (st : Option (List Int)) (hs : C05.StepsOk (st.getD e.defSteps))
     {s : Seq} (h : Inv s) : ∃ s', Seq.quantiseSeq e s st = .ok s' ∧ Inv s' := by
-  obtain ⟨s', h1, h2, _⟩ := onAbs_inv h (quantise (st.getD e.defSteps)) (quantise_ok _ hs)
+  obtain ⟨s', h1, h2, _⟩ := onAbs_inv h (quantiseS (st.getD e.defSteps)) (quantiseS_ok _ hs)
   exact ⟨s', h1, h2⟩
 
 theorem qnlSeq_inv (e : Env) (v : Option (List Int)) (hv : ∀ x ∈ v.getD e.defValues, 0 ≤ x) (std : Int)
@@ -575,8 +587,8 @@ theorem onRel_readable {s : Seq} (h : Readable s) (f : List Msg → Except Err (
 
 theorem qan_readable (e : Env) (hne : e.defSteps ≠ []) {s : Seq} (h : Readable s) :
     ∃ s', Seq.quantiseAndNormalise e s = .ok s' ∧ Readable s' := by
-  obtain ⟨s1, h1, i1⟩ := onAbs_readable h (quantise ((Option.none : Option (List Int)).getD e.defSteps))
-    (quantise_total_any hne)
+  obtain ⟨s1, h1, i1⟩ := onAbs_readable h (quantiseS ((Option.none : Option (List Int)).getD e.defSteps))
+    (quantiseS_total_any hne)
   obtain ⟨s2, h2, i2⟩ := onAbs_readable i1
     (quantiseNoteLengths ((Option.none : Option (List Int)).getD e.defValues) e.ppqn false) (C06.total _ _ _)
   obtain ⟨s3, h3, i3⟩ := onRel_readable i2 (fun r => .ok (normalise r)) (fun r => ⟨_, rfl⟩)
